@@ -84,3 +84,16 @@ Theorem c04_composite_anchor : forall j id sp rest elems entries path r fields a
   location j (PEnum id path (map (fun p => (None, p)) elems)) = mkloc (span_start a) (span_end b).
 Proof. exact location_composites. Qed.
 Print Assumptions c04_composite_anchor.
+
+(* recorded finding C04-range-from-a-helper-body-to-its-caller, as the model has it: a range pattern whose low bound is written in the body of
+   a macro_rules! helper (line 3) and whose high bound is supplied by the helper's caller (line 40).  Under a stable rustc (join unavailable)
+   the location runs from the start of the one to the end of the other - over everything that stands between the two places *)
+Local Open Scope string_scope.
+Lemma known_c04_range_from_a_helper_body_to_its_caller :
+  let lit s sp := {| u_text := s; u_strlit := false; u_span := sp; u_toks := [TLit s sp] |} in
+  let lo := lit "50" (SPos 3 71 3 73) in
+  let hi := lit "60" (SPos 40 4 40 6) in
+  let whole := {| u_text := "50 ..= 60"; u_strlit := false; u_span := SPos 3 71 3 73; u_toks := [TLit "50" (SPos 3 71 3 73)] |} in
+  location false (PRange 1 whole (Some (Some lo, SPos 3 74 3 77, true, Some hi))) = (3, 71, 40, 6)%N.
+Proof. vm_compute. reflexivity. Qed.
+
